@@ -680,7 +680,7 @@ def _words(tabs, dname):
 def _sqlite_name_ok(name):
     """representable on the executable backend and not colliding with the harness's own column"""
     return (name != "" and "\x00" not in name and not name.lower().startswith("sqlite_")
-            and name.lower() not in ("zz_other", "zz_t2", "zz_t", "main", "temp")
+            and name.lower() not in ("zz_other", "zz_t2", "zz_t")
             and not any(0xD800 <= ord(c) <= 0xDFFF for c in name))
 
 
@@ -940,23 +940,26 @@ def _sqlite_roundtrip(name):
     e = create_engine("sqlite://")
     try:
         m = MetaData()
-        t = Table(name, m, Column(name, Integer), Column("zz_other", Integer), schema=name)
+        with_schema = name.lower() not in ("main", "temp")  # SQLite's own schema names cannot be attached
+        t = Table(name, m, Column(name, Integer), Column("zz_other", Integer), schema=name if with_schema else None)
         Table("zz_t2", m, Column("k", Integer), Index(name, "k"))
         with e.begin() as c:
-            c.exec_driver_sql("attach database ':memory:' as \"%s\"" % name.replace('"', '""'))
+            if with_schema:
+                c.exec_driver_sql("attach database ':memory:' as \"%s\"" % name.replace('"', '""'))
             m.create_all(c)
             c.execute(t.insert().values({name: 7, "zz_other": 8}))
             rows = [tuple(r) for r in c.execute(select(t.c[name], t.c.zz_other))]
             if rows != [(7, 8)]:
                 return [1]
             insp = inspect(c)
-            sch = [x for x in insp.get_schema_names() if x not in ("main", "temp")]
+            sch = [x for x in insp.get_schema_names() if x not in ("main", "temp")] if with_schema else [None]
             if len(sch) != 1:
                 return [1]
-            tn = insp.get_table_names(schema=sch[0])
+            tn = [x for x in insp.get_table_names(schema=sch[0]) if x != "zz_t2"]
             if len(tn) != 1:
                 return [1]
             cols = [x["name"] for x in insp.get_columns(tn[0], schema=sch[0])]
+            sch = sch if with_schema else [tn[0]]
             idx = [(x["name"], x["column_names"]) for x in insp.get_indexes("zz_t2")]
             if len(cols) != 2 or cols[1] != "zz_other" or len(idx) != 1 or idx[0][1] != ["k"]:
                 return [1]
